@@ -214,7 +214,7 @@ def main(argv=None):
     wall_s=round(time.time() - t0, 2),
     violations=nviol,
   )
-  if args.replay is None:
+  if args.replay is None and not os.environ.get("VF_NO_EVIDENCE"):
     os.makedirs(os.path.join(VERIF, "evidence"), exist_ok=True)
     with open(os.path.join(VERIF, "evidence", f"{prop}.json"), "w") as f:
       json.dump(ev, f, indent=1, sort_keys=True)
